@@ -166,4 +166,145 @@ theorem incrementPass_is_spec (p w h : Nat) (hp1 : 1 ≤ p) (hp7 : p ≤ 7) (hw 
            rcases hm with rfl | rfl | rfl | rfl | rfl | rfl <;>
              simp only [pe2, pe3, pe4, pe5, pe6, pe7] <;> omega)
 
+/-! ### the Adam7 order is a rearrangement of the image -/
+
+/-- the coordinates `v < n` on the lattice `start, start + step, …` -/
+def latticeList (n start step : Nat) : List Nat :=
+  (List.range n).filter fun v => decide (start ≤ v ∧ (v - start) % step = 0)
+
+/-- the pixels of pass `k` (0-based) of a `w × h` image in the order the specification stores them -/
+def passCoords (k w h : Nat) : List (Nat × Nat) :=
+  let g := Spec.adam7.getD k ⟨0, 0, 1, 1⟩
+  (latticeList h g.ys g.dy).flatMap fun y => (latticeList w g.xs g.dx).map fun x => (x, y)
+
+/-- each residue pair lies on the lattice of exactly one pass: the one the code picks -/
+theorem onPass_unique : ∀ r < 8, ∀ pm < 8, ∀ k < 7, (onPass k r pm = true ↔ k = passOf r pm) := by
+  decide
+
+theorem mem_latticeList (n start step v : Nat) :
+    v ∈ latticeList n start step ↔ v < n ∧ start ≤ v ∧ (v - start) % step = 0 := by
+  simp [latticeList]
+
+theorem mem_passCoords (k w h x y : Nat) :
+    (x, y) ∈ passCoords k w h ↔
+      let g := Spec.adam7.getD k ⟨0, 0, 1, 1⟩
+      (x < w ∧ g.xs ≤ x ∧ (x - g.xs) % g.dx = 0) ∧ (y < h ∧ g.ys ≤ y ∧ (y - g.ys) % g.dy = 0) := by
+  simp only [passCoords, List.mem_flatMap, List.mem_map, Prod.mk.injEq, mem_latticeList]
+  constructor
+  · rintro ⟨y', hy', x', hx', rfl, rfl⟩
+    exact ⟨hx', hy'⟩
+  · rintro ⟨hx, hy⟩
+    exact ⟨y, hy, x, hx, rfl, rfl⟩
+
+/-- **Every pixel of the image belongs to exactly one Adam7 pass, namely the one `interlace_image`
+    sends it to** (all widths and heights): `(x, y)` is among the stored pixels of pass `k` iff
+    `k = passOf (y % 8) (x % 8)`. -/
+theorem pixel_in_exactly_its_pass (w h x y k : Nat) (hx : x < w) (hy : y < h) (hk : k < 7) :
+    (x, y) ∈ passCoords k w h ↔ k = passOf (y % 8) (x % 8) := by
+  rw [mem_passCoords]
+  have hl := lattice_mod8 k hk x y
+  simp only at hl ⊢
+  rw [← onPass_unique (y % 8) (Nat.mod_lt _ (by decide)) (x % 8) (Nat.mod_lt _ (by decide)) k hk, ← hl]
+  constructor
+  · rintro ⟨⟨_, h1, h2⟩, ⟨_, h3, h4⟩⟩; exact ⟨h3, h4, h1, h2⟩
+  · rintro ⟨h3, h4, h1, h2⟩; exact ⟨⟨hx, h1, h2⟩, ⟨hy, h3, h4⟩⟩
+
+theorem count_range (v n : Nat) : (List.range n).count v = if v < n then 1 else 0 := by
+  induction n with
+  | zero => simp
+  | succ n ih =>
+    rw [List.range_succ, List.count_append, ih]
+    by_cases h1 : v < n
+    · have : ¬ (n = v) := by omega
+      simp [h1, this]; omega
+    · by_cases h2 : v = n
+      · subst h2; simp
+      · have : ¬ (n = v) := fun h => h2 h.symm
+        have h3 : ¬ v < n + 1 := by omega
+        simp [h1, this, h3]
+
+theorem count_latticeList_le (n start step v : Nat) : (latticeList n start step).count v ≤ 1 := by
+  unfold latticeList
+  have h1 := List.Sublist.count_le v (List.filter_sublist (p := fun v => decide (start ≤ v ∧ (v - start) % step = 0)) (l := List.range n))
+  have h2 := count_range v n
+  have : (List.range n).count v ≤ 1 := by rw [h2]; split <;> omega
+  omega
+
+theorem sum_map_le_count (L : List Nat) (y : Nat) (f : Nat → Nat) (hf : ∀ y', f y' ≤ if y' = y then 1 else 0) :
+    (L.map f).sum ≤ L.count y := by
+  induction L with
+  | nil => simp
+  | cons a L ih =>
+    simp only [List.map_cons, List.sum_cons, List.count_cons]
+    have := hf a
+    by_cases h : a = y
+    · simp [h] at this ⊢; omega
+    · have h' : ¬ (a == y) = true := by simpa using h
+      simp [h] at this
+      simp [h', this]; exact ih
+
+theorem count_map_pair (l : List Nat) (x y : Nat) : (l.map fun a => (a, y)).count (x, y) = l.count x := by
+  induction l with
+  | nil => rfl
+  | cons a l ih =>
+    simp only [List.map_cons, List.count_cons, ih]
+    by_cases h : a = x
+    · subst h; simp
+    · have h1 : ¬ ((a, y) == (x, y)) = true := by simpa using h
+      have h2 : ¬ (a == x) = true := by simpa using h
+      simp [h1, h2]
+
+/-- within a pass no pixel is stored twice -/
+theorem count_passCoords_le (k w h x y : Nat) : (passCoords k w h).count (x, y) ≤ 1 := by
+  unfold passCoords
+  simp only
+  rw [List.count_flatMap]
+  refine Nat.le_trans (sum_map_le_count _ y _ ?_) (count_latticeList_le _ _ _ y)
+  intro y'
+  simp only [Function.comp]
+  by_cases hy : y' = y
+  · subst hy
+    rw [if_pos rfl]
+    rw [count_map_pair]; exact count_latticeList_le _ _ _ x
+  · rw [if_neg hy]
+    apply Nat.le_of_eq
+    apply List.count_eq_zero_of_not_mem
+    intro hm
+    obtain ⟨x', _, he⟩ := List.mem_map.mp hm
+    simp only [Prod.mk.injEq] at he
+    exact hy he.2
+
+/-- the Adam7 storage order of the whole image: pass after pass -/
+def adam7Order (w h : Nat) : List (Nat × Nat) := (List.range 7).flatMap fun k => passCoords k w h
+
+/-- **The Adam7 order is a rearrangement of the image**: every pixel position occurs in it exactly
+    once (for all sizes), so writing the pixels in this order and reading them back by the same table
+    loses and duplicates nothing. -/
+theorem adam7Order_each_once (w h x y : Nat) (hx : x < w) (hy : y < h) :
+    (adam7Order w h).count (x, y) = 1 := by
+  unfold adam7Order
+  rw [List.count_flatMap]
+  have hp := (passOf_is_spec (y % 8) (Nat.mod_lt _ (by decide)) (x % 8) (Nat.mod_lt _ (by decide))).1
+  -- the count in pass k is 1 for k = passOf … and 0 otherwise
+  have hcount : ∀ k, k < 7 → (passCoords k w h).count (x, y) = if k = passOf (y % 8) (x % 8) then 1 else 0 := by
+    intro k hk
+    by_cases hkp : k = passOf (y % 8) (x % 8)
+    · rw [if_pos hkp]
+      have hm := (pixel_in_exactly_its_pass w h x y k hx hy hk).mpr hkp
+      have h1 := count_passCoords_le k w h x y
+      have h2 : 0 < (passCoords k w h).count (x, y) := List.count_pos_iff.mpr hm
+      omega
+    · rw [if_neg hkp]
+      exact List.count_eq_zero_of_not_mem (fun hm => hkp ((pixel_in_exactly_its_pass w h x y k hx hy hk).mp hm))
+  have : (List.range 7).map (fun k => (passCoords k w h).count (x, y)) =
+      (List.range 7).map (fun k => if k = passOf (y % 8) (x % 8) then 1 else 0) := by
+    apply List.map_congr_left
+    intro k hk
+    exact hcount k (List.mem_range.mp hk)
+  show ((List.range 7).map (fun k => (passCoords k w h).count (x, y))).sum = 1
+  rw [this]
+  generalize passOf (y % 8) (x % 8) = p at hp
+  have : p = 0 ∨ p = 1 ∨ p = 2 ∨ p = 3 ∨ p = 4 ∨ p = 5 ∨ p = 6 := by omega
+  rcases this with rfl | rfl | rfl | rfl | rfl | rfl | rfl <;> decide
+
 end OxiModel.C18
